@@ -11,6 +11,12 @@ CHECKS = {
         "text": "Every interleaving of registry changes, both watchers (including the health-snapshot/catalog skew) and the update loop is explored for the bounded universe and QuiescentCorrect/LastGood/Isolation plus EventuallyCorrect (liveness) are decided by TLC; the same spec generates registry histories with the table prescribed at quiescence, which are applied to a fake Consul HTTP API serving fabio's real consul backend and real update loop, comparing route.GetTable() after every change; every execution is recorded (fake-Consul events + SetTable hook, one logical clock) and must be accepted by ControlPlane_Trace with the invariants evaluated at every step. The health rule itself is enumerated over every multiset of <=3/4 checks x 28 configurations and replayed into passingServices/checksWithTagPrefix.",
         "note": "Bounded: 3 instances (two of one service with the same service id on two nodes), 5 instance states, 3 node states, 5 override texts, <=3 (quick) / 4 (thorough) changes exhaustively in the model, histories of <=2/3 changes exhaustively plus seeded random ones of 8-12 changes against the code. 'Observed' is read as 'delivered to the update loop'. Trusts TLC, the fake Consul's blocking-query semantics, the hook placement (after table.Store), Go toolchain.",
     },
+    "C06": {
+        "category": MC,
+        "technique": "TLA+ spec DataPlane (pick/glob/redirect as invocation, one atomic effect, response) model-checked with TLC (the fine-grain variant of the unrepaired code must violate it); recorded concurrent executions of real lookups under the race detector validated by TLC against DataPlane_Trace (linearizability), 16-goroutine stress judged by exact counts",
+        "text": "TLC decides ExactShare, OwnLocation and CacheBounded for every interleaving of 3 request processes and shows that the unrepaired grain (read-then-add cursor, shared redirect slot) violates them. The binding is trace validation: 6 goroutines perform real Table.Lookup round-robin picks, redirect lookups with their own path and GlobCache gets; every invocation/response is recorded with one logical clock and TLC must find atomic effects explaining every result and the final cursor and cache contents. Stress runs with 16 goroutines and a concurrent table swapper require exact per-target counts after whole ring cycles (10^4-slot weighted ring), the cache within its size, every Location the request's own, and no race-detector report.",
+        "note": "Schedules are those the Go scheduler produces at GOMAXPROCS 16/4/2/8 in 4 (quick) to 20 (thorough) runs; exhaustive only in the model (3 processes, <=5-6 operations). A data-race report is a violation of this property. Trusts TLC, the race detector, the logical-clock recorder.",
+    },
     "C14": {
         "category": MC,
         "technique": "TLA+ spec Registration (Expressible/Denote) enumerated by TLC and replayed into routecmd.build -> route.NewTable; isolation decided on ControlPlane (state 'bad', invariant Isolation) and bound by the fake-Consul pipeline with rotating inexpressible tag sets + trace validation",
